@@ -3,7 +3,10 @@ use crate::push::instructions::InstructionCache;
 use crate::push::state::PushState;
 use crate::push::stack::PushPrint;
 use crate::push::vector::{BoolVector,IntVector};
+#[cfg(not(feature = "verif"))]
 use std::collections::HashMap;
+#[cfg(feature = "verif")]
+use crate::push::verif_seam::DetMap as HashMap;
 use std::fmt;
 
 #[derive(Clone, Debug, Default)]
